@@ -353,3 +353,27 @@ Theorem C01_succ_is_remove_foreign :
   forall (g : graph) (n : node), succ' g n = remove_foreign_inplace (g_foreign g) (g_succ g n).
 Proof. exact succ'_is_remove_foreign. Qed.
 Print Assumptions C01_succ_is_remove_foreign.
+
+(* "every goroutine interleaving": for mt_consistent graphs the content of the destination after a
+   successful Copy / CopyGraph does not depend on the interleaving at all ... *)
+Theorem C01_outcome_schedule_independent :
+  forall (g : graph) (c : cfg) (d0 : list node) (rank : node -> nat) (tr1 tr2 : list event)
+         (st1 st2 : state),
+    (forall n x, In x (succ' g n) -> rank x < rank n) ->
+    c_xroots c = [] -> closed_nodes g d0 -> mt_consistent g ->
+    accepts g c d0 tr1 = Some st1 -> returned st1 = Some true ->
+    accepts g c d0 tr2 = Some st2 -> returned st2 = Some true ->
+    forall n, has g (dst st1) n = has g (dst st2) n.
+Proof. exact outcome_schedule_independent. Qed.
+Print Assumptions C01_outcome_schedule_independent.
+
+(* ... whereas for the graph of the known finding twin-digest-exists two schedules of the same copy
+   into the same EMPTY digest-keyed destination both succeed and end differently *)
+Theorem C01_outcome_schedule_dependent_refuted_without_mt_consistency :
+  exists g c (rank : node -> nat) tr1 tr2 st1 st2 n,
+    (forall m x, In x (succ' g m) -> rank x < rank m) /\ c_xroots c = [] /\ closed_nodes g [] /\
+    accepts g c [] tr1 = Some st1 /\ returned st1 = Some true /\
+    accepts g c [] tr2 = Some st2 /\ returned st2 = Some true /\
+    has g (dst st1) n <> has g (dst st2) n.
+Proof. exact outcome_schedule_dependent_without_mt_consistency. Qed.
+Print Assumptions C01_outcome_schedule_dependent_refuted_without_mt_consistency.
